@@ -99,12 +99,18 @@ func main() {
 	var id string
 	args := os.Args[1:]
 	var rest []string
+	valueFlag := map[string]bool{"tier": true, "replay": true, "runs": true, "batch": true}
 	for i := 0; i < len(args); i++ {
 		if !strings.HasPrefix(args[i], "-") && id == "" {
 			id = args[i]
 			continue
 		}
 		rest = append(rest, args[i])
+		name := strings.TrimLeft(args[i], "-")
+		if valueFlag[name] && i+1 < len(args) {
+			i++
+			rest = append(rest, args[i])
+		}
 	}
 	if err := flag.CommandLine.Parse(rest); err != nil {
 		os.Exit(2)
@@ -433,6 +439,15 @@ func doCheck(chk *meta.Check, tier string, seed uint64, runsOverride int, onlyBa
 		}
 	}
 	ev.KnownFindingRuns = len(vios) - len(unknown)
+	if len(vios) > 0 {
+		bySig := map[string]int{}
+		for _, v := range vios {
+			bySig[v.res.Violation.Class+" | "+firstLine(v.res.Violation.Sig)]++
+		}
+		for _, k := range sortedKeysInt(bySig) {
+			fmt.Printf("kgcheck: violating runs: %5d  %s\n", bySig[k], k)
+		}
+	}
 	if len(unknown) > 0 {
 		// report the first unknown violation of each class (shrunk), fail on all
 		seen := map[string]bool{}
@@ -501,8 +516,8 @@ func runTapes(bi *buildInfo, prop string, b meta.Batch, tapes [][]uint32, keepTr
 	if per <= 0 {
 		per = 1
 	}
-	if per > 16 {
-		per = 16
+	if spread := (len(tapes) + workers - 1) / workers; per > spread {
+		per = spread
 	}
 	out := map[int]sim.Result{}
 	var mu sync.Mutex
